@@ -659,16 +659,20 @@ def _stored(st, recv):
     return to_int(fld('_g_nstores')) > to_int(fld('_g_n0')), fld('_g_skey'), fld('_g_sval')
 
 
+CONV = z3.Function('stored_form', z3.IntSort(), z3.IntSort())     # value id -> id of what the tree holds after storing it (a plain dict becomes a level of the tree: a different object)
+
+
 def item_lookup_after_store(eng, recv, args, kw, st, n):
-    """ASSUMED model of __getitem__ in a method that also stores: the path just stored looks up to the value stored, any other path as on entry"""
+    """ASSUMED model of __getitem__ in a method that also stores: the path just stored looks up to the stored form of the value, any other path as on entry"""
     from pyvc.vals import IntV, ExcV
+    from pyvc.pure import to_int
     key = args[0]
     if not isinstance(key, SeqV):
         raise Unsupported('__getitem__ of %r' % (key,))
     did, skey, sval = _stored(st, recv)
     for s, same in eng.fork(st, z3.And(did, skey.t == key.t)):
         if same:
-            yield s, sval
+            yield s, IntV(CONV(to_int(sval)))          # what the tree holds for a stored value: the value itself, or the level a plain dict was converted to
             continue
         for s2, ok in eng.fork(s, HASK(key.t)):
             yield s2, (IntV(VALK(key.t)) if ok else ExcV('KeyError', 'no such path', getattr(n, 'lineno', None)))
@@ -708,18 +712,24 @@ def replay_setdefault(model, obligation):
         if got != want or after != want_after:
             return dict(confirmed=True, function='cpppo.dotdict.setdefault', input='tree %r, setdefault(%r, 99)' % (before, path), observed='%r, tree %r' % (got, after),
                         required='%r, tree %r' % (want, want_after))
+    d = cpppo.dotdict()
+    lvl = d.setdefault('q.r', {})
+    if lvl is not d['q.r']:
+        return dict(confirmed=True, function='cpppo.dotdict.setdefault', input="d.setdefault('q.r', {}) on an empty dotdict", observed='an object that is not d[%r] (%s)' % ('q.r', type(lvl).__name__),
+                    required="the level the tree now holds at 'q.r' (writes through the result must reach the tree)")
     return dict(confirmed=False)
 
 
 def setdefault_spec():
     from pyvc.vals import BoolV, IntV
-    funcs = dict(has=lambda pe, k: BoolV(HASK(k.t)), val=lambda pe, k: IntV(VALK(k.t)))
+    from pyvc.pure import to_int
+    funcs = dict(has=lambda pe, k: BoolV(HASK(k.t)), val=lambda pe, k: IntV(VALK(k.t)), stored_form=lambda pe, v: IntV(CONV(to_int(v))))
     callees = {'__getitem__': item_lookup_after_store, 'dotdict_base.__getitem__': item_lookup_after_store,
                '__contains__': contains_after_store, 'dotdict_base.__contains__': contains_after_store,
                '__setitem__': item_store, 'dotdict_base.__setitem__': item_store}
     return Spec('dotdict_base.setdefault', (F, 'dotdict_base.setdefault'), params={'key': 'Str', 'default': 'Int'}, cls_name='dotdict_base',
                 fields={'_g_nstores': 'Int', '_g_n0': 'Int', '_g_skey': 'Str', '_g_sval': 'Int'}, requires='self._g_n0 == self._g_nstores',
-                ensures=[('the stored value if the path is held, else the default', 'result == (val(key) if has(key) else default)'),
+                ensures=[('the stored value if the path is held, else what the tree now holds for the default (a plain dict becomes a level of the tree)', 'result == (val(key) if has(key) else stored_form(default))'),
                          ('a path the tree holds is left alone', 'implies(has(key), self._g_nstores == old(self._g_nstores))'),
                          ('an absent path receives the default, once', 'implies(not has(key), self._g_nstores == old(self._g_nstores) + 1 and self._g_skey == key and self._g_sval == default)')],
                 raises={}, modifies=['self._g_nstores', 'self._g_skey', 'self._g_sval'], callees=callees, hints=dict(funcs=funcs), replay=replay_setdefault,
